@@ -19,6 +19,8 @@ def plan(tier: str, seed: int) -> List[Dict[str, Any]]:
     shards, per = (14, 450) if tier == 'quick' else (48, 9000)
     out = [{'kind': 'calls', 'seed': seed, 'shard': i, 'cases': per, 'timeout_s': 1200 if tier == 'quick' else 7200}
            for i in range(shards)]
+    for spec in out[3::4]:   # (python -O strips assert statements and sets __debug__ to False)
+        spec['env'] = {'PYTHONOPTIMIZE': '1'}
     n_asm = 2 if tier == 'quick' else 12
     for i in range(n_asm):
         out.append({'kind': 'assembled', 'seed': seed, 'shard': i, 'shards': n_asm, 'tier': tier, 'timeout_s': 3000})
